@@ -47,6 +47,10 @@ def alive_form(prog, c, sink_names=("push", "insert")):
     dl = c["dest"]["l"] if not c["dest"]["p"] else None
     if dl == 0:
         return c["op"]                      # closure returns the comparison: kept iff it holds
+    # `(expiry > now).then(|| item)` in a filter_map: kept iff the comparison holds
+    for c2 in x.calls():
+        if c2.name() in ("then", "then_some") and c2.args and F.op_local(c2.args[0]) == dl and dl is not None:
+            return c["op"]
     # used as a branch condition: which edge leads to the keeping effect?
     for bb, t in x.terms():
         if t["t"] == "switch" and F.op_local(t["discr"]) == dl:
@@ -67,7 +71,10 @@ def alive_form(prog, c, sink_names=("push", "insert")):
 def _reaches_sink_first(x, start, other, sink_names):
     """a keeping effect (push/insert) lies in the region dominated by `start`"""
     region = {k for k in x.reachable_blocks() if x.dominates(start, k)} if x.pred(start) and len(x.pred(start)) == 1 else {start}
-    return any(c.bb in region and c.name() in sink_names for c in x.calls())
+    if any(c.bb in region and c.name() in sink_names for c in x.calls()):
+        return True
+    # `if alive { Some(item) } else { None }` in a filter_map closure: building Some is the keeping effect
+    return x.is_closure and any(bb in region and rv["rv"] == "aggregate" and rv.get("variant") == "Some" for bb, i, pl, rv, st in x.assigns())
 
 
 def run(R):
@@ -170,6 +177,7 @@ def run(R):
     r4_to_r8(R, tr, inc)
     r9(R, inc)
     r10(R)
+    r11(R, inc)
     # ---- R2
     impls = [b for b in prog.bodies.values() if b.self_adt == "shared::provenance::ExpirationProvenance" and b.r.get("impl_trait", "").endswith("Provenance")]
     bym = {b.name: b for b in impls}
@@ -670,3 +678,45 @@ def _sliced(x, op):
             continue
         return True
     return True
+
+
+
+def r11(R, inc):
+    """carry-over is decided by expiry alone"""
+    from lib import pipeline as P
+    prog = R.prog
+    R.rule("C12-R11", "a fact is carried over iff it has not expired: on the way from the previous materialisation to the facts the incremental path "
+                      "starts from, the only filter is the comparison of the fact's expiry with the evaluation time. Any further condition (is the "
+                      "triple still listed in its window, does its predicate occur in a rule, ..) also drops DERIVED facts filed under that "
+                      "component, which nothing re-derives because their premises are carried over and not in the delta")
+    if inc is None:
+        return
+    fam = prog.family(inc.key)
+    filt = []
+    for x in fam:
+        for c in x.calls():
+            if c.name() in ("filter", "filter_map", "take_while", "skip_while", "retain") and len(c.args) >= 2:
+                key, inner = P._closure_calls(prog, x, c.args[1])
+                if key is None:
+                    continue
+                # only pipelines that start from the previous materialisation (parameter sds_plus_old)
+                d = P.derives(prog, x, F.op_place(c.args[0])["l"]) if F.op_place(c.args[0]) else set()
+                root = x
+                names = [inc.local_name(i) for i in range(1, inc.nargs + 1)]
+                from_old = any(t[0] == "param" and t[1] == "sds_plus_old" for t in d) or (x.is_closure and any(t[0] in ("capture", "param") for t in d))
+                if not from_old:
+                    continue
+                filt.append((x, c, key, inner))
+    R.floor("C12-R11", "filters on the way from the previous materialisation to the carried-over facts", len(filt), 1)
+    for x, c, key, inner in filt:
+        cl = prog.bodies[key]
+        calls = sorted({ic.name() for y, ic in inner})
+        member = [n for n in calls if n in ("contains", "contains_key", "get", "binary_search", "any", "iter")]
+        cmp_time = False
+        for y in prog.family(key):
+            for bb, i, pl, rv, st in y.assigns():
+                if rv["rv"] == "binop" and rv["op"] in ("Gt", "Ge", "Lt", "Le") and "u64" in (y.local_ty((F.op_place(rv["a"]) or {"l": 0})["l"]) + y.local_ty((F.op_place(rv["b"]) or {"l": 0})["l"])):
+                    cmp_time = True
+        ok = cmp_time and not member
+        R.ob("C12-R11", "carry-filter:%s" % ("expiry" if ok else "/".join(member) or "other"), "a filter on the carried-over facts tests the expiry only (calls in the predicate: %s)" % calls, ok,
+             where=x.where(c.ln), detail=None if ok else "this filter looks something up (%s): facts derived into that component are not `listed` anywhere and are dropped although alive" % member)
